@@ -36,13 +36,14 @@ fn rec_json(r: &fac::RecordView) -> Value {
 pub fn decode_outcome(bytes: &[u8]) -> Value {
     let t0 = Instant::now();
     let data = bytes.to_vec();
-    let res = std::panic::catch_unwind(move || fac::decode(data, "sim0", 2));
+    // (peak heap use of the call: the decoder and the view built from its result; the datagram itself is not counted)
+    let (res, mem) = crate::memcount::measure(|| std::panic::catch_unwind(move || fac::decode(data, "sim0", 2)));
     let ms = t0.elapsed().as_millis() as u64;
     match res {
-        Err(_) => json!({"out": "panic", "ms": ms, "q": [], "an": [], "ns": [], "ar": []}),
-        Ok(Err(_)) => json!({"out": "err", "ms": ms, "q": [], "an": [], "ns": [], "ar": []}),
+        Err(_) => json!({"out": "panic", "ms": ms, "mem": mem, "q": [], "an": [], "ns": [], "ar": []}),
+        Ok(Err(_)) => json!({"out": "err", "ms": ms, "mem": mem, "q": [], "an": [], "ns": [], "ar": []}),
         Ok(Ok(m)) => json!({
-            "out": "ok", "ms": ms,
+            "out": "ok", "ms": ms, "mem": mem,
             "q": m.questions.iter().map(|(n, t)| json!({"n": n.as_bytes(), "ty": t})).collect::<Vec<_>>(),
             "an": m.answers.iter().map(rec_json).collect::<Vec<_>>(),
             "ns": m.authorities.iter().map(rec_json).collect::<Vec<_>>(),
@@ -464,6 +465,20 @@ fn grammar(r: &mut Rng) -> Vec<u8> {
 pub fn generated(seed: u64, n_random: usize, n_mutate: usize, n_grammar: usize, n_big: usize) -> Vec<Case> {
     let mut r = Rng::new(seed);
     let mut out = Vec::new();
+    // section counts that promise far more than the datagram holds (memory must follow the datagram, not the header)
+    for sec in 0..4usize {
+        for count in [1u16, 255, 4096, 65535] {
+            for body in [0usize, 1, 11, 40] {
+                for qr in [0u16, 0x8400] {
+                    let mut c = [0u16; 4];
+                    c[sec] = count;
+                    let mut b = header(qr, c[0], c[1], c[2], c[3]);
+                    b.extend(std::iter::repeat(0u8).take(body));
+                    out.push(Case { kind: "counts", bytes: b });
+                }
+            }
+        }
+    }
     for i in 0..n_random {
         let len = match i % 4 {
             0 => r.below(13) as usize,
